@@ -44,7 +44,20 @@ RULE = ('histories of attach/detach/receive/settle/reply/disconnect events over 
         '0.07 per step and 15 % of the replies on a face that is down for that call.  The recording face transmits only '
         'while it is up (like a socket), so `sent` is what actually went out; demanded by the specification machine '
         '(s_reply_out): the Data goes out iff t <= deadline and the face is up, and the callback reports "sent" (True) '
-        'exactly then -- False or NetworkError otherwise (classes reply-*-face-down).  A separate '
+        'exactly then -- False or NetworkError otherwise (classes reply-*-face-down).  Reply sizes x envelope of the Interest '
+        '(appv2, the only front-end whose handlers get a reply callback): the Data handed to reply() is a DigestSha256-signed '
+        'packet of exactly n octets for n = the smallest signed Data (48), 50, 100, 200, every size 228..254 and 257..260 (the one-octet / '
+        'three-octet TLV length switch of the Data and of an LpPacket around it; no TLV is 255 or 256 octets long), 300, 1000, '
+        '4000, 8000, 8500, 8700 and every size 8750..8800 (thorough: 8681..8800; 8800 = the packet size limit, so every legal '
+        'Data) x the Interest arriving bare / inside an LpPacket with a PIT token of 0, 1, 4, 8, 32 octets / an LpPacket without '
+        'a token / with a CongestionMark (with and without a token) x lifetime {absent, 0, 100, 4000} x replies inside the '
+        'lifetime, at the deadline, after it, handed over as bytes and as bytearray x the face up, down (three ways) and back '
+        'up, down for one call; several Interests in different envelopes outstanding at once and answered in any order with '
+        'Data of different sizes with down/up events in between; random histories draw the envelope (p = 0.3) and a size '
+        '(p = 0.5, half of them within 60 octets of the limit).  Size and envelope are no business of the specification '
+        'machine: the Data goes out iff t <= deadline and the face is up and reply() returns True exactly then (a reply that '
+        'was due, did not go out and is reported as sent is class reply-return-not-truthful); the byte check demands that what '
+        'went out is exactly that Data, bare when no PIT token came with the Interest, else inside an LpPacket echoing it.  A separate '
         'stream adds None handlers (correspondence only).  Registration API of the legacy front-end (real app.NDNApp connected '
         'through its own main_loop() to a scripted forwarder face): world histories of route() declared before connecting / on the '
         'live connection, register(name, handler) and register(name, None), unregister (of attached, free and announced-only '
@@ -523,7 +536,9 @@ def ns_sexp(arg):
 # ---- running one history --------------------------------------------------------------------------
 # harness-level events:
 #   ('att', name, hid, vid, raw, sig, repr_kind, via_route) ('det', name, repr_kind)
-#   ('recv', name, life, now, buf_kind, token) ('settle',) ('reply', i, now, running) ('clean',)
+#   ('recv', name, life, now, buf_kind, token) ('settle',) ('reply', i, now, running[, size]) ('clean',)
+#       token: the envelope the Interest arrives in (see `envelope`); size: the Data handed to reply() is
+#       data_of_size(size) instead of the small default one.  Neither is visible to the model / specification.
 #   ('down', how) / ('up',): the face goes down (0 the transport clears `running`, 1 face.shutdown(), 2 app.shutdown())
 #       and stays down until `up` (reconnected).  Not events of the model or the specification either: they fix
 #       the `up` argument of the reply events that follow (face_states); the 4th field of `reply` is a per-call
